@@ -8,7 +8,7 @@ d = "/verif/seeded/%s%s" % (pid, suf)
 os.makedirs(d, exist_ok=True)
 for f in ("patch.diff", "demo.diff", "notes.md"):
     shutil.copy("/tmp/seed-%s/%s" % (pid, f), d)
-meta = {"property": pid, "round": {"": 1, "b": 2, "c": 3, "d": 4, "e": 5, "f": 6, "g": 7, "h": 8}.get(suf, suf), "source": "independent sub-agent given only the property text and a scratch worktree",
+meta = {"property": pid, "round": {"": 1, "b": 2, "c": 3, "d": 4, "e": 5, "f": 6, "g": 7, "h": 8, "i": 9, "j": 10}.get(suf, suf), "source": "independent sub-agent given only the property text and a scratch worktree",
         "demonstration_test": test, "needs_to_manifest": needs, "detected": True, "first_run": first, "caught_by": [c.strip() for c in caught.split(";") if c.strip()],
         "history": hist,
         "confirmed": "tools/confirm_seed.sh in a scratch worktree: with patch.diff alone the unedited suite passes 121/121 (+2 doc tests); with patch.diff + demo.diff the demonstration fails; with demo.diff alone it passes",
